@@ -134,6 +134,8 @@ impl Subscribe {
             topic_filters.push((topic, opts));
         }
 
+        // [MQTT-3.8.3-2]
+        ensure!(!topic_filters.is_empty(), DecodeError::MalformedPacket);
         Ok(Self { packet_id, id: sub_id, user_properties, topic_filters })
     }
 }
@@ -169,6 +171,8 @@ impl Unsubscribe {
             topic_filters.push(ByteString::decode(src)?);
         }
 
+        // [MQTT-3.10.3-2]
+        ensure!(!topic_filters.is_empty(), DecodeError::MalformedPacket);
         Ok(Self { packet_id, user_properties, topic_filters })
     }
 }
